@@ -65,7 +65,8 @@ void Sieve::_extend(unsigned limit)
     unsigned segment = _sieve_size;
     std::valarray<bool> is_prime(segment);
     for (; start <= limit; start += 2 * segment) {
-        unsigned finish = std::min(start + segment * 2 + 1, limit);
+        // `segment` odd numbers start + 1, ..., start + 2 * segment - 1
+        unsigned finish = std::min(start + segment * 2 - 1, limit);
         is_prime[std::slice(0, segment, 1)] = true;
         // considering only odd integers. An odd number n corresponds to
         // n-start/2 in the array.
